@@ -1,6 +1,49 @@
-(* C16 -- placeholder statement until the non-interference theorem lands (Arb/ClassProofs.v). *)
+(* C16 -- The controller acts only on resources of its own class.
+   Only statements, each closed by [exact] and followed by Print Assumptions. *)
 From Coq Require Import List ZArith String Bool.
-From NIC Require Import Base.SMap Arb.Types Arb.Model Arb.Spec Arb.InvProofs.
-Theorem C16_state_ignores_foreign_objects : forall c es, objs_of_state (run c es) = objs_after es.
-Proof. exact run_objs. Qed.
-Print Assumptions C16_state_ignores_foreign_objects.
+From NIC Require Import Base.SMap Arb.Types Arb.Model Arb.Spec Arb.InvProofs Arb.ClassProofs Arb.Cases.
+Import ListNotations.
+Open Scope Z_scope.
+
+(* Non-interference, a statement about PAIRS of histories: for every history, replacing every
+   event on an object whose class designates another controller (for an Ingress: also `no class`)
+   by the deletion of that object leaves every output unchanged -- the change list and the problem
+   list returned by every single event, and every intermediate state (hosts, listener hosts,
+   problem maps, stored objects).  Hence a foreign-class resource never contributes configuration,
+   never occupies a host, listener or path, and never receives a report that a plain deletion
+   would not receive; and when a served resource's class changes away the hosts it held pass to
+   the next claimant exactly as if it had been deleted. *)
+Theorem C16_non_interference : forall c es, outputs c init (map erase es) = outputs c init es.
+Proof. exact non_interference. Qed.
+Print Assumptions C16_non_interference.
+
+(* only objects that arrived with the controller's own class (and valid) are ever stored *)
+Theorem C16_foreign_never_stored :
+  forall c es k i, In (k, i) (ings (run c es)) -> In (EIng i true true) es.
+Proof. exact foreign_never_stored. Qed.
+Print Assumptions C16_foreign_never_stored.
+
+(* all four state components that outlive an event are functions of the stored objects, so nothing
+   about a foreign-class object can linger in them *)
+Theorem C16_state_is_function_of_own_objects : forall c es, full_inv c (run c es).
+Proof. exact run_full_inv. Qed.
+Print Assumptions C16_state_is_function_of_own_objects.
+
+(* the class predicate (specification used on the implementation): for an Ingress the deprecated
+   annotation takes precedence over the class field; an Ingress without any class is not ours *)
+Example C16_annotation_precedence :
+  has_class "nginx" true (Some "other"%string) (Some "nginx"%string) = false /\
+  has_class "nginx" true (Some "nginx"%string) (Some "other"%string) = true /\
+  has_class "nginx" true None None = false /\
+  has_class "nginx" false None (Some ""%string) = true.
+Proof. vm_compute. auto. Qed.
+
+(* Non-vacuity: a VirtualServer that owns a host moves to a foreign class; the younger Ingress takes
+   the host; outputs equal those of the history in which the VirtualServer is deleted instead. *)
+Definition nI := mkIng (mkMeta "ns" "i" "u2" 200 1 0) IRegular ["h.example.com"%string] [] false.
+Definition nV g := mkVS (mkMeta "ns" "v" "u1" 100 g 0) "h.example.com" [] None.
+Example C16_nonvacuous :
+  let es := [EVS (nV 1) true true; EIng nI true true; EVS (nV 2) false true] in
+  map (fun kv => (fst kv, rkey (snd kv))) (hosts (run (mkCfg true true) es)) = [("h.example.com"%string, "Ingress/ns/i"%string)] /\
+  map erase es = [EVS (nV 1) true true; EIng nI true true; EDelVS "ns/v"].
+Proof. vm_compute. auto. Qed.
